@@ -76,6 +76,8 @@ async fn episode(p: &EpParams) -> EpReport {
     let mut used_before: BTreeSet<String> = BTreeSet::new();
     let mut reused = 0u64;
     let mut steps: Vec<String> = Vec::new();
+    // (tag, subscription) pairs that were still undelivered when their topic was deleted
+    let mut held_when_topic_deleted: Vec<(String, String)> = Vec::new();
     for t in &topics {
         if cx.create_topic(t).await.is_ok() {
             next_inc += 1;
@@ -88,7 +90,31 @@ async fn episode(p: &EpParams) -> EpReport {
         let name = rng.pick(&names).clone();
         let own_topic = if name.starts_with("projects/p1/") { topics[0].clone() } else { topics[1].clone() };
         let foreign_topic = if name.starts_with("projects/p1/") { topics[1].clone() } else { topics[0].clone() };
-        match rng.below(12) {
+        match rng.below(13) {
+            12 => {
+                // a message is published and its topic deleted at once, before any push round: the
+                // subscriptions live on, detached, and still owe the message to their endpoints / pullers
+                let t = rng.pick(&topics).clone();
+                let Some(inc) = live_topic.get(&t).copied() else { continue };
+                tag_no += 1;
+                let tag = format!("m{}", tag_no);
+                steps.push(format!("publish+deltopic:{}", short(&t)));
+                if cx.publish(&t, &[Msg::tagged(&tag)]).await.is_ok() {
+                    for (n, sb) in subs.iter_mut() {
+                        if sb.topic == t && sb.topic_inc == inc {
+                            sb.expect.push(tag.clone());
+                            held_when_topic_deleted.push((tag.clone(), n.clone()));
+                            if let Some(e) = sb.endpoint.filter(|e| *e < 2) {
+                                allowed.insert((tag.clone(), n.clone()), e);
+                            }
+                        }
+                    }
+                }
+                if cx.delete_topic(&t).await.is_ok() {
+                    live_topic.remove(&t);
+                    rep.inc("topics_deleted_with_messages_still_held");
+                }
+            }
             11 => {
                 // a push endpoint that starts like a URL but is none: whether the create is accepted or
                 // rejected, the server (and its push loop) keeps serving everything else
@@ -370,6 +396,9 @@ async fn episode(p: &EpParams) -> EpReport {
         // a subscription deleted (or detached) shortly after the publish may legitimately never have pushed it
         let still = subs.get(name).map(|s| s.expect.contains(tag)).unwrap_or(false);
         if still && !posted.contains(&(tag.clone(), name.clone())) {
+            if held_when_topic_deleted.iter().any(|(t2, n2)| t2 == tag && n2 == name) {
+                rep.viol("C11", "C11:detached-subscription-stopped-serving", format!("{} was held by {} when its topic was deleted and was never pushed afterwards (steps {:?})", tag, name, steps));
+            }
             rep.viol("C14", "C14:never-posted", format!("{} published to live push subscription {} was never POSTed to endpoint {} (steps {:?})", tag, name, e, steps));
         }
     }
